@@ -91,7 +91,17 @@ def gen_scalar(g, depth):
                 return ["idx", ["hess", ["input", inp["name"]], para], i, j]
             return ["dx", ["input", inp["name"]], g.draw(st.integers(0, d - 1)), para]
         return ["idx", ["jac"], g.draw(st.integers(0, g.geo_dim - 1)), g.draw(st.integers(0, d - 1))]
-    k = g.pick(["+", "-", "*", "*", "/", "pow", "fn", "fn", "inner", "tr", "det", "idxv", "neg"])
+    k = g.pick(["+", "-", "*", "*", "/", "pow", "fn", "fn", "fnpair", "inner", "tr", "det", "idxv", "neg"])
+    if k == "fnpair" and g.funcs_ok:
+        # two (possibly different) builtin functions of the SAME compound argument, e.g. sin(g)*cos(g)
+        e = gen_scalar(g, max(depth - 1, 1)) if g.chance(0.7) else gen_scalar(g, 0)
+        arg = {"plain": e, "pos": _safe_pos(e), "sin": ["fn", "sin", e]}
+        table = {"sin": "plain", "cos": "plain", "abs": "plain", "sqrt": "pos", "exp": "sin", "log": "pos", "tan": None}
+        f1 = g.pick(["sin", "cos", "abs", "sqrt", "exp", "log"])
+        f2 = g.pick([f for f in ("sin", "cos", "abs", "sqrt", "exp", "log") if table[f] == table[f1]])
+        return [g.pick(["+", "-", "*"]), ["fn", f1, arg[table[f1]]], ["fn", f2, arg[table[f1]]]]
+    if k == "fnpair":
+        k = "*"
     if k in ("+", "-", "*"):
         return [k, gen_scalar(g, depth - 1), gen_scalar(g, depth - 1)]
     if k == "/":
